@@ -938,6 +938,11 @@ package hermes
 //@   after stmt "g.PRGES[horizonIndex] = ValAsFloat(wa[": ghost tabfk = local.FK[horizonIndex]
 //@   after stmt "g.PRGES[horizonIndex] = ValAsFloat(wa[": ghost tablim = g.LIM[horizonIndex]
 //@   after stmt "g.PRGES[horizonIndex] = ValAsFloat(wa[": assume tableUsableWater: g.LIM[horizonIndex] < local.FK[horizonIndex]
+// the table itself is ordered (field capacity not above pore volume, trusted base item 7); what Hydro ADDS for organic
+// matter must keep it so: the bonus on field capacity (KRR) without a matching bonus on pore volume (KRG) does not -
+// genuine defect F30 (known finding, not repaired: which of the two should give way is a modelling decision)
+//@   after stmt "g.PRGES[horizonIndex] = ValAsFloat(wa[": assume tableOrdered: local.FK[horizonIndex] <= g.PRGES[horizonIndex]
+//@   ensures[C15] ordered: isnil(err) ==> g.FELDW[horizon-1] <= g.PRGES[horizon-1]
 // the row of the texture table: three columns each for field capacity (from column 4), usable water (from 13) and pore
 // volume (from 22), one per bulk-density group (classes 1-2, 3, 4-5); the wilting point is field capacity minus the usable
 // water OF THE SAME GROUP (a neighbouring column gives a wilting point that can be negative for the dense sandy textures)
